@@ -46,6 +46,8 @@ func propC07(c *Ctx) propInfo {
 	}
 	c.floor("E1.P6-forward-refs", 1)
 	c.workBudget()
+	c.cacheOnlyComplete()
+	c.hasherState()
 	c.bufferSizing() // the bounds proofs of the bit-level readers/writers lean on 8*len(buf) >= cap
 	c.floor("E1.P2-bounds", 150)
 	c.floor("E1.P4-alloc", 15)
